@@ -6,6 +6,7 @@ import (
 	"fmt"
 	"io"
 	"strings"
+	"sync"
 	"time"
 
 	jsonrpc "github.com/filecoin-project/go-jsonrpc"
@@ -41,6 +42,13 @@ func (c03) Plan(tier string, seed int64) []core.Scenario {
 		out = append(out, core.Scenario{Kind: "w2", Seed: seed*7919 + int64(i), N: map[string]int{"variant": i % 3}, S: map[string]string{}})
 		out = append(out, core.Scenario{Kind: "midframe", Seed: seed*7907 + int64(i), N: map[string]int{"variant": i % 4}, S: map[string]string{}})
 	}
+	nB := 2
+	if tier == "thorough" {
+		nB = 20
+	}
+	for i := 0; i < nB; i++ {
+		out = append(out, core.Scenario{Kind: "busy-blackhole", Seed: seed*7873 + int64(i), N: map[string]int{"every": []int{100, 40}[i%2], "noise": i % 3}, S: map[string]string{}})
+	}
 	// calls issued after the connection loop has ended: no-reconnect loss, closer, client context cancelled
 	nE := 1
 	if tier == "thorough" {
@@ -62,10 +70,85 @@ func (c03) Run(sc core.Scenario) core.Result {
 		runMidFrame(sc, r3)
 	case "ended":
 		runEnded(sc, r3)
+	case "busy-blackhole":
+		runBusyBlackhole(sc, r3)
 	default:
 		runFault(sc, r3, r4)
 	}
 	return r3.Result()
+}
+
+// runBusyBlackhole: the peer falls silent while the application keeps issuing calls more often than
+// the timeout. The calls pending on the dead link must still come back (the client notices the silent
+// peer, fails them and reconnects): a later probe round-trip establishes that the link is healthy again.
+func runBusyBlackhole(sc core.Scenario, r *core.R) {
+	env := NewEnv(EnvOpt{ServerOpts: []jsonrpc.ServerOption{jsonrpc.WithServerPingInterval(50 * time.Millisecond)}})
+	defer env.Shutdown()
+	pol := noisePolicy(sc)
+	defer pol.Install()()
+	cl, err := env.NewClient(ClientOpt{Opts: []jsonrpc.Option{jsonrpc.WithReconnectBackoff(5*time.Millisecond, 20*time.Millisecond), jsonrpc.WithPingInterval(50 * time.Millisecond), jsonrpc.WithTimeout(400 * time.Millisecond)}})
+	if err != nil {
+		r.Inconclusive("client: %v", err)
+		return
+	}
+	bg := context.Background()
+	w := Tok("w")
+	cl.Echo(bg, w, "")
+	var mu sync.Mutex
+	var calls []*Outcome
+	stop := make(chan struct{})
+	every := time.Duration(sc.I("every")) * time.Millisecond
+	go func() {
+		for {
+			select {
+			case <-stop:
+				return
+			case <-time.After(every):
+				t := Tok("b")
+				o := Go(t, func() (string, error) { return cl.Echo(bg, t, "") })
+				mu.Lock()
+				calls = append(calls, o)
+				mu.Unlock()
+			}
+		}
+	}()
+	time.Sleep(3 * every)
+	env.Px.KillAll(wsproxy.BLACKHOLE)
+	core.Log.Note("h.fault.fired", "BLACKHOLE while calling")
+	// the application keeps calling; the first call that went into the hole must come back
+	time.Sleep(2 * every)
+	mu.Lock()
+	first := calls[len(calls)-1]
+	mu.Unlock()
+	returned := first.Wait(core.Grace)
+	close(stop)
+	if !returned {
+		r.Violate("lost-call:inflight", "a call pending since the peer fell silent is still blocked after %v although the client's timeout is 400 ms (the application kept issuing a call every %v); events: %s", core.Grace, every, core.Log.Tail(30))
+	}
+	healthy := probeUntilHealthy(cl, r, core.Grace)
+	if healthy {
+		mu.Lock()
+		cs := append([]*Outcome(nil), calls...)
+		mu.Unlock()
+		for _, o := range cs {
+			if !o.Wait(core.Grace) {
+				r.Violate("lost-call:after-fault", "call %s issued around a silent stall never returned although a later probe round-tripped", o.Tok)
+				break
+			}
+			if o.Err == nil && o.Val != svc.Reply(o.Tok) {
+				r.Violate("foreign-result", "call %s returned %q", o.Tok, o.Val)
+			}
+		}
+	} else if returned {
+		r.Inconclusive("link never healthy again")
+	}
+	mu.Lock()
+	n := len(calls)
+	mu.Unlock()
+	r.Key(fmt.Sprintf("busy-blackhole every=%v", every), true)
+	r.Obs("calls", int64(n))
+	r.Sig(core.Log.Signature())
+	r.Sample(map[string]interface{}{"fault": "BLACKHOLE while a call is issued every " + every.String(), "calls": n, "first_pending_call_returned": returned, "healthy_again": healthy})
 }
 
 // runEnded: once the client's connection loop has ended (loss on a no-reconnect client, closer,
